@@ -353,7 +353,7 @@ class Check(BaseCheck):
                         "voxelsize": np.array([1.0, 1.0, 1.0]), "xras": np.array([-1.0, 0, 0]), "yras": np.array([0, 0, -1.0]), "zras": np.array([0, 1.0, 0]),
                         "cras": np.array([0.5, -3.0, 2.0])}
                 info0 = dict(info, valid="0  # volume info invalid", head=np.array([20], dtype=np.int32))
-                for fsinfo in (None, info, info0):
+                for fsinfo in (None, info, info0, None):       # (the last one: a header-less file read AFTER files with headers)
                     p = tmp.path("lh.surf")
                     with core.quiet():
                         m = TriaMesh(v * 40, t, fsinfo=fsinfo)
@@ -363,6 +363,8 @@ class Check(BaseCheck):
                     b = core.call(TriaMesh.read_fssurf, p)
                     if b[0] != "ok" or not np.array_equal(b[1].t, t) or not np.array_equal(np.asarray(b[1].v, np.float32), (v * 40).astype(np.float32)):
                         return core.Violation("fs", "FreeSurfer surface not read back identically", dict(kind="fs"))
+                    if fsinfo is None and b[1].fsinfo:
+                        return core.Violation("fs", "a surface written without header reads back with header fields %s (left over from a file read before)" % sorted(b[1].fsinfo)[:4], dict(kind="fs"))
                     if fsinfo is not None:          # every field of the header dictionary comes back
                         got = b[1].fsinfo or {}
                         for key, val in fsinfo.items():
